@@ -127,6 +127,21 @@ static void prop(Ctx &c) {
         }
         if (pwrite(fd, &orig, 1, pos) != 1) abort();
     }
+    // a context that has already read the lead of the intact file and is then pointed at an altered copy
+    // (lead re-read on the same context, as after downloading more of a file) must judge the NEW bytes
+    {
+        ref::ParseResult pq = ref::parse(s.file); size_t ds = ref::digest_size(pq.h.hash_type), dloc = pq.h.lead_size - ds;
+        for (size_t k = 0; k < 6; k++) {
+            size_t pos = k < 3 ? dloc + (k * 7 + s.file[5]) % ds : pq.h.lead_size + (k * 131 + s.file[dloc]) % std::max<size_t>(1, pq.h.total_size - pq.h.lead_size);
+            if (pos >= s.hdr_len) continue;
+            uint8_t orig = s.file[pos], v = (uint8_t)(orig ^ (1u << (k % 8)));
+            lseek(fd, 0, SEEK_SET); zckCtx *z = zck_create(); bool ok = zck_init_adv_read(z, fd) && zck_read_lead(z);
+            if (ok) { if (pwrite(fd, &v, 1, pos) != 1) abort(); lseek(fd, 0, SEEK_SET); bool again = zck_read_lead(z) && zck_read_header(z); evals++;
+                      if (pwrite(fd, &orig, 1, pos) != 1) abort();
+                      if (again) { zck_free(&z); close(fd); c.extra_evals = evals; c.fail("reused-context-accepts-altered-header", "a context that had read the lead of the intact file accepted the file after header byte " + std::to_string(pos) + " was changed (lead read again on the same context)"); } }
+            zck_free(&z);
+        }
+    }
     close(fd);
     // insertions / deletions inside the header proper, size field adjusted (lead re-encoded)
     ref::ParseResult p0 = ref::parse(s.file.size() && memcmp(s.file.data(), "\0ZHR1", 5) == 0 ? s.file : s.file);
